@@ -40,7 +40,7 @@ package miner
 //@   assert-at call GetTarget target-at-the-block-timestamp: arg0 == deref(pocTemplate.Timestamp)
 //@   assert-at return#-1 best-quality-of-the-slot: 0 <= bestProofIndex && bestProofIndex < len(qualities) && qualities[bestProofIndex] == bestQuality && (forall j int :: 0 <= j && j < len(qualities) ==> bigv[qualities[j]] <= bigv[bestQuality])
 //@   assert-at return#-1 quality-exceeds-the-target: bigv[bestQuality] > bigv[lastresult("GetTarget")]
-//@   assert-at return#-1 winning-proof-time-and-quality-returned: result0 != nil && result0.proof == lastresult("getBindingProofs")[bestProofIndex] && result0.quality == bestQuality && result0.time == deref(pocTemplate.Timestamp) && result1 == nil
+//@   assert-at return#-1 winning-proof-time-and-quality-returned: result0 != nil && result0.proof == lastresult("getBindingProofs")[bestProofIndex] && result0.quality == bestQuality && deref(result0.time) == deref(pocTemplate.Timestamp) && result1 == nil
 //@   loop #1 invariant round-state: bestQuality != nil && pocTemplate != nil && usable(proofs)
 //@   loop #2 invariant slot-state: bestQuality != nil && i == workSlot && usable(proofs)
 //@   loop #3 invariant best-so-far: -1 <= #rangeindex && #rangeindex < len(qualities) && bestQuality != nil && (forall j int :: 0 <= j && j <= #rangeindex ==> bigv[qualities[j]] <= bigv[bestQuality]) && (bigv[bestQuality] > 0 ==> 0 <= bestProofIndex && bestProofIndex <= #rangeindex && qualities[bestProofIndex] == bestQuality) && bigv[bestQuality] >= 0
